@@ -7,7 +7,7 @@ import ast
 from . import astq, reference
 from .absint import (AbsInt, AbsRaise, ADict, AList, AObj, LenV, Opaque, Outcome, SeqVar)
 from .bits import AV, Sym
-from .domains import check_domain
+from .domains import check_domain, looks_undecided, semantic_domain
 from .fold import ClassRef, FuncRef
 from .intset import IntSet, Undecidable
 from .model import AnalysisError
@@ -72,10 +72,15 @@ def attr_domains(ctx, report_rule=None):
         try:
             r = check_domain(ctx.p, ctx.f, fn, params[0], cenv)
         except Undecidable as e:
-            r = None
-            if report_rule:
-                ctx.fail(report_rule, f'domain({name})', ctx.where(fn), f'cannot derive the accepted domain: {e}',
-                         construct=f'{fn.qname}::domain')
+            r, err = None, e
+        if looks_undecided(r):
+            try:
+                r = semantic_domain(ctx, lambda ai, v, ref=ref: ai.apply(ref, [v], {}, None))
+            except (Undecidable, AnalysisError) as e:
+                r = None
+                if report_rule:
+                    ctx.fail(report_rule, f'domain({name})', ctx.where(fn), f'cannot derive the accepted domain: {e}',
+                             construct=f'{fn.qname}::domain')
         if r is not None:
             ctx.paths += r.paths
         out[name] = (fn, r)
@@ -138,10 +143,16 @@ def data_byte_domain(ctx):
                 if isinstance(v, (int, float, str, bool, type(None))) or (isinstance(v, AV) and v.is_const)}
     try:
         r = check_domain(ctx.p, ctx.f, item_fn, item_fn.params()[0], ienv)
-    except Undecidable as e:
-        ctx.fail('R02.3', 'item-range', ctx.where(item_fn), f'cannot derive the set of data byte values accepted by {item_fn.name}: {e}',
-                 construct=f'{item_fn.qname}::domain(data)')
-        return fn, item_fn, None
+    except Undecidable:
+        r = None
+    if looks_undecided(r):
+        item_ref = ('closure', item_fn, closure) if closure is not None else FuncRef(item_fn)
+        try:
+            r = semantic_domain(ctx, lambda ai_, v: ai_.apply(item_ref, [v], {}, None))
+        except (Undecidable, AnalysisError) as e:
+            ctx.fail('R02.3', 'item-range', ctx.where(item_fn), f'cannot derive the set of data byte values accepted by {item_fn.name}: {e}',
+                     construct=f'{item_fn.qname}::domain(data)')
+            return fn, item_fn, None
     ctx.paths += r.paths
     return fn, item_fn, r
 
